@@ -595,6 +595,16 @@ func runC41(c *Ctx) {
 				}
 				return nil, "no case taken"
 			case *ast.IfStmt:
+				// `if c, ok := cache.Load(k); ok` re-loads the cache in its init statement
+				if as, ok := x.Init.(*ast.AssignStmt); ok && len(as.Rhs) == 1 {
+					if call, ok := as.Rhs[0].(*ast.CallExpr); ok && strings.HasSuffix(rc.CallKey(call), ".Load") {
+						rechecked = true
+					} else {
+						return nil, "unrecognised init statement"
+					}
+				} else if x.Init != nil {
+					return nil, "unrecognised init statement"
+				}
 				a := atomOf(x.Cond, rechecked)
 				if a == "" {
 					return nil, "unrecognised condition " + types_ExprString(x.Cond)
@@ -680,7 +690,7 @@ func runC41(c *Ctx) {
 		}
 		_ = v
 	}
-	c.Floor("decision leaves", nleaf, 18)
+	c.Floor("decision leaves", nleaf, 12)
 	// announce function
 	type ann struct{ state, dir string }
 	announce := func(cached, cacheIn, dirIn bool) (ann, string) {
@@ -700,6 +710,14 @@ func runC41(c *Ctx) {
 					case *ast.AssignStmt:
 						lhs := rc.Prov(x.Lhs[0])
 						nm := constName(rc, x.Rhs[0])
+						if nm == "" {
+							if n2, w2 := announceFromLiteral(rc, x.Rhs[0], cacheIn, dirIn); n2 != "" || w2 != "" {
+								nm = n2
+								if w2 != "" {
+									why = w2
+								}
+							}
+						}
 						if strings.HasSuffix(lhs, ".CacheState") {
 							res.state = map[string]string{"Connection_CACHED": "CACHED", "Connection_FRESH": "FRESH"}[nm]
 						}
@@ -821,4 +839,67 @@ func runC41(c *Ctx) {
 			c.Ob("cache-lock", "reuseConnection#announce-read-under-lock", as.Pos(), held, "the cache state that is announced is read under the keyed lock")
 		}
 	}
+}
+
+// announceFromLiteral: the announced value is computed by an invoked literal (an inlined
+// mapping helper); follow its conditions, under the given valuation, to the return taken and
+// name the constant it yields.
+func announceFromLiteral(rc *Fn, e ast.Expr, cacheIn, dirIn bool) (name, why string) {
+	lc, ok := ast.Unparen(e).(*ast.CallExpr)
+	if !ok {
+		return "", ""
+	}
+	lit := rc.litOfCallee(lc)
+	if lit == nil {
+		return "", ""
+	}
+	h := rc.enclosing(lit).Closure(lit)
+	var run func(stmts []ast.Stmt) bool
+	run = func(stmts []ast.Stmt) bool {
+		for _, ls := range stmts {
+			switch y := ls.(type) {
+			case *ast.ReturnStmt:
+				if len(y.Results) == 1 {
+					name = constName(h, y.Results[0])
+				}
+				return true
+			case *ast.IfStmt:
+				a := ""
+				if be, ok := ast.Unparen(y.Cond).(*ast.BinaryExpr); ok && be.Op == token.EQL && constName(h, be.Y) == "directionIncoming" {
+					switch pv := h.Prov(be.X); {
+					case strings.HasSuffix(pv, ".cachedConnections.Load()#0.direction"):
+						a = "cacheIn"
+					case pv == "param#3":
+						a = "dirIn"
+					}
+				}
+				b := false
+				switch a {
+				case "cacheIn":
+					b = cacheIn
+				case "dirIn":
+					b = dirIn
+				default:
+					why = "unrecognised condition in the announce helper: " + types_ExprString(y.Cond)
+					return true
+				}
+				if b {
+					if run(y.Body.List) {
+						return true
+					}
+				} else if eb, ok := y.Else.(*ast.BlockStmt); ok {
+					if run(eb.List) {
+						return true
+					}
+				}
+			case *ast.DeclStmt:
+			default:
+				why = fmt.Sprintf("unrecognised statement %T in the announce helper", ls)
+				return true
+			}
+		}
+		return false
+	}
+	run(lit.Body.List)
+	return name, why
 }
